@@ -2,7 +2,7 @@
 from common import *
 
 PID = "C03"
-TARGETS = ["Run.vo"]
+TARGETS = ["Run.vo", "NonVacuous/C03.vo"]
 IMPORTS = "From VF Require Import Base Show Gen_Errors Lexer Response Conv Tree Scripted Numeric Enum Mnemonic Run."
 ALLOWED_AXIOMS = []
 PROFILES = ["debug"]
